@@ -91,6 +91,12 @@ theorem keystore_roundtrip (C : Crypto) (entropy : Bytes) (ks : KeyStore) (pw sa
   refine ⟨by simp [readChecks, encrypt], ?_⟩
   simp only [decrypt, keyfile_roundtrip C ks pw salt nonce hn, he, hks]
 
+/-- T4d: the JSON text of the three byte fields (`hexutil.Bytes`: "0x" + hex) reads back to the same bytes, so
+    write → read is the identity on (cipherData, nonce, salt). -/
+theorem keyfile_text_roundtrip (kf : KeyFile) (h1 : kf.cipherData.WF) (h2 : kf.nonce.WF) (h3 : kf.salt.WF) :
+    kf.text.parse = some (kf.cipherData, kf.nonce, kf.salt) := by
+  simp [KeyFile.text, KeyFileText.parse, hexutil_roundtrip _ h1, hexutil_roundtrip _ h2, hexutil_roundtrip _ h3]
+
 /-- T4b′: what the code does on a key file whose nonce is not 12 bytes: `Decrypt` does not return an error, the AEAD
     panics (modelled as the outcome `nonceLength`). A file written by `Encrypt` never has such a nonce (T4a). -/
 theorem decrypt_bad_nonce_length (C : CryptoFns) (kf : KeyFile) (pw : Bytes) (h : kf.nonce.length ≠ 12) :
